@@ -441,6 +441,7 @@ def correspondence(ctx, model_ok=True):
                 v = {"t": "list", "v": args} if k == "spacetime_cut" else args[0]
             c["filters"] = [[k, v]]
             cases.append(c)
+    cases += list(_probe_cases(ctx.rng))       # falsy scalar arguments, unknown names with falsy values
     while len(cases) < n:
         cases.append(gen_case(ctx.rng))
     gots = [run_impl(c, ctx.work, f"s{i}") for i, c in enumerate(cases)]
@@ -531,12 +532,28 @@ def correspondence(ctx, model_ok=True):
 
 
 # ----------------------------------------------------------------------------------------- search
+def _probe_cases(rng):
+    """targeted dictionaries: scalar arguments that are falsy (0, 0.0), and unknown names whose value is falsy"""
+    for cls in CLASSES:
+        for rep in range(4):
+            base = gen_case(rng, cls=cls, admissible_only=True)
+            for k, v in (("rapidity_cut", {"t": "int", "v": 0}), ("pseudorapidity_cut", {"t": "float", "v": (0.0).hex()}),
+                         ("particle_status", {"t": "int", "v": 0}), ("spacetime_rapidity_cut", {"t": "int", "v": 0}),
+                         ("no_such_filter", {"t": "bool", "v": False}), ("no_such_filter", {"t": "int", "v": 0}),
+                         ("no_such_filter", {"t": "none"}), ("charged", {"t": "bool", "v": False})):
+                if k in KEYS[cls] or k not in ALLKEYS:
+                    yield dict(base, filters=[[k, v]])
+                    if base["filters"] and base["filters"][0][0] != k:
+                        yield dict(base, filters=[[k, v]] + base["filters"][:1])
+
+
 def search(ctx):
     found, n = [], 0
     budget = 400 if ctx.quick else 3000
     seen = set()
-    for i in range(budget):
-        c = gen_case(ctx.rng, admissible_only=(i % 6 != 0))
+    probes = list(_probe_cases(ctx.rng))
+    for i in range(budget + len(probes)):
+        c = probes[i] if i < len(probes) else gen_case(ctx.rng, admissible_only=(i % 6 != 0))
         n += 1
         msg = oracle(c, ctx.work)
         if msg:
